@@ -20,7 +20,16 @@ def classes():
             "PVLGroup": c.PVLGroup, "PVLObject": c.PVLObject}
 
 
+_REAL = {}          # model value -> Python value for the current replay ("y" -> None in the null-valued variant)
+
+
+def rv(v):
+    return _REAL.get(v, v) if isinstance(v, str) else v
+
+
 def sv(v):
+    if v is None and "y" in _REAL:
+        return "y"
     return v if isinstance(v, str) else "!" + repr(v)
 
 
@@ -42,8 +51,8 @@ def exc_name(e):
 
 def apply_op(m, o):
     """Perform operation record o on the real container m; return the result record."""
-    op, k, v, i, form = o["op"], o["k"], o["v"], o["i"], o["form"]
-    ps = [tuple(p) for p in o["ps"]]
+    op, k, v, i, form = o["op"], o["k"], rv(o["v"]), o["i"], o["form"]
+    ps = [(p[0], rv(p[1])) for p in o["ps"]]
     try:
         with warnings.catch_warnings():
             warnings.simplefilter("ignore")
@@ -106,7 +115,7 @@ def apply_op(m, o):
                 raise AssertionError(op)
     except Exception as e:  # the result of the call is the exception class
         return {"t": "exc", "a": exc_name(e), "b": ""}
-    if r is None:
+    if r is None and not (_REAL and op in ("popkey", "popkey_d", "popall", "popall_d", "setdefault")):      # (in the null-valued variant None is a value)
         return {"t": "none", "a": "", "b": ""}
     if op in ("pop", "popitem"):
         p = pr(r)
@@ -185,12 +194,12 @@ def observe(m, probe_k, probe_v):
             }
             # m.get(k) without default returns None for an absent key
             g0 = _try(lambda: m.get(k), lambda e: "!" + exc_name(e))
-            if (g0 is None) != (ob["key"][k]["getd"] == "!default"):
+            if not _REAL and (g0 is None) != (ob["key"][k]["getd"] == "!default"):
                 ob["key"][k]["getd"] = "!get-inconsistent"
         for v in probe_v:
-            ob["val"][v] = idx(m.values(), v)
+            ob["val"][v] = idx(m.values(), rv(v))
         for k in probe_k:
-            ob["item"][k] = {v: idx(m.items(), (k, v)) for v in probe_v}
+            ob["item"][k] = {v: idx(m.items(), (k, rv(v))) for v in probe_v}
         return ob
 
 
@@ -239,7 +248,10 @@ def rebuild(m, how):
 
 def _replay_hist(job):
     cname, hist = job[0], job[1]
-    rebuilt = len(job) > 2 and job[2]
+    rebuilt = len(job) > 2 and job[2] is True
+    _REAL.clear()
+    if len(job) > 2 and job[2] == "null":
+        _REAL["y"] = None
     cls = _G["classes"][cname]
     table = _G["table"]
     m = cls()
@@ -263,17 +275,17 @@ def _replay_hist(job):
                 diff = [k for k in exp if got.get(k) != exp[k]]
                 clause = ("obs", {k: got.get(k) for k in diff}, {k: exp[k] for k in diff})
             else:
-                same = cls(tuple(p) for p in st["post"])
+                same = cls((p[0], rv(p[1])) for p in st["post"])
                 variants = [st["post"] + [["a", "x"]], st["post"][:-1], st["post"][::-1],
                             [[p[0], "q"] for p in st["post"]]]
                 eqs = [(m == same) is True and (m != same) is False]
                 for vl in variants:
-                    other = cls(tuple(p) for p in vl)
+                    other = cls((p[0], rv(p[1])) for p in vl)
                     eqs.append((m == other) == (vl == st["post"]))
                 if not all(eqs):
                     clause = ("eq", eqs, None)
         if clause:
-            return ("fail", {"config": cname, "locus": precondition_class(o, pre) + ("/container-rebuilt-before" if rebuilt else ""),
+            return ("fail", {"config": cname, "locus": precondition_class(o, pre) + ("/container-rebuilt-before" if rebuilt else "/value-is-None" if _REAL else ""),
                              "observed": clause[0]},
                     {"cls": cname, "history": [s["o"] for s in hist[:stepno + 1]], "step": stepno, "rebuilt_before_each_step": rebuilt},
                     {"clause": clause[0], "got": clause[1], "expected": clause[2]})
@@ -379,11 +391,13 @@ def run(ctx, rep):
     jobs = [(c, h, False) for h in hists for c in names]
     # the same histories on a container that is replaced, before every step, by a copy of itself (four mechanisms in turn)
     jobs += [(names[i % 4], h, True) for i, h in enumerate(hists if ctx.thorough else hists[::2])]
+    # ... and with the value "y" realised as None (the PVL Null is an ordinary value: present is not the same as truthy)
+    jobs += [(names[i % 4], h, "null") for i, h in enumerate(hists if ctx.thorough else hists[1::2]) if any(s["o"]["v"] == "y" or ["y"] in [p[1:] for p in s["o"]["ps"]] for s in h)]
     res = pool_map(_replay_hist, jobs)
     for (cname, h, rb), out in zip(jobs, res):
         nontriv = any(s["ret"]["t"] == "exc" for s in h) or any(
             len({p[0] for p in s["post"]}) < len(s["post"]) for s in h)
-        rep.case("replay-rebuilt" if rb else "replay", (cname, json.dumps([s["o"] for s in h])), nontriv)
+        rep.case("replay-null" if rb == "null" else "replay-rebuilt" if rb else "replay", (cname, json.dumps([s["o"] for s in h])), nontriv)
         if out[0] == "machinery":
             raise RuntimeError(out[1])
         if out[0] == "fail":
